@@ -35,13 +35,9 @@ def main(tier, seed):
             it2 = families.runner.Item(it.key + ('tight',), it.src, it.args, w=2, s=m + 1, meta=dict(it.meta))
             tight.append(it2)
     items += tight
-    items = rt.presize(items, 2500 if quick else 4000)
-    st = rt.Stats()
-    rt.run(items, st, max_level=9000 if quick else 14000, timeout=600 if quick else 3000)
-    if st.cases == 0:
-        raise common.Machinery('no case was judged')
-    vs = rt.violations(PROP, items)
-    cov = st.coverage({'rule': 'seeded type-directed random programs without time travel x argument grid; enumerated boolean formulas '
-                               '(depth <= 2) in every usage position; evaluation-order / operand-preservation cases; array layout programs; '
-                               'W=2, 3 and one of {4,8} (thorough: all); generous and minimum+1 stacks', 'exhaustive': False})
-    return common.finish(PROP, tier, seed, 'model_checking', cov, vs, t0, ASSUME)
+    return rt.standard(PROP, tier, seed, items,
+                       'seeded type-directed random programs without time travel x argument grid; enumerated boolean formulas '
+                       '(depth <= 2) in every usage position; every two-operator arithmetic tree over nine kinds of leaves; '
+                       'evaluation-order / operand-preservation cases; array layout programs; constants beyond 16 bits; '
+                       'W=2, 3 and one of {4,8} (thorough: all); generous and minimum+1 stacks', t0,
+                       presize_limit=3500 if quick else 6000, max_level=10000 if quick else 20000)
